@@ -404,7 +404,7 @@ func TestVerifC16(t *testing.T) {
 		}
 	}
 	// bound: local engine size by remote sequence length (index = length)
-	maxLocal := []int{0, 2, 2}
+	maxLocal := []int{0, 3, 1}
 	if !c.Quick() {
 		maxLocal = []int{0, 3, 3, 2}
 	}
